@@ -24,7 +24,7 @@ EXPLANATION = (
 ASSUMPTIONS = ["A1 z3 sound", "A2 numpy object-array semantics", "A5 networkx conversions faithful (graph harness)",
                "input precondition: generators commute and are independent (2^n - 1 non-trivial products non-identity)"]
 BOUNDS = {"quick": {"tableaux": "n<=2, all generating sets and signs; budgeted explorations of n=3 and n=4", "graphs": "n<=4"},
-          "thorough": {"tableaux": "n<=3 complete (181k paths); n=4 under a 1 h budget (partial)", "graphs": "n<=5"}}
+          "thorough": {"tableaux": "n<=3 complete (181k paths); n=4 under a 30 min budget (partial)", "graphs": "n<=5"}}
 OUTSIDE = "n >= 4 general tableaux; n >= 6 graphs"
 
 
@@ -159,7 +159,7 @@ def plan(tier):
     h = InverseCircuit(n=4, mode="core")
     h.parallel = True
     h.partial_ok = True
-    jobs.append((h, {"time_budget": 45 if q else 3600, "chunk_paths": 8, "chunk_s": 8.0}))
+    jobs.append((h, {"time_budget": 45 if q else 1800, "chunk_paths": 8, "chunk_s": 8.0}))
     if not q:
         h = InverseCircuit(n=3, mode="core")
         h.parallel = True
